@@ -340,6 +340,33 @@ func runDocs(s *core.Shard, caseNo *int) {
 			A: &ld.Case{Files: map[string]string{"compose.yaml": off}, ComposeFiles: []string{"compose.yaml"}, Env: docEnv, Opts: ld.Opts{SkipInterpolation: true}},
 			B: &ld.Case{Files: map[string]string{"compose.yaml": on}, ComposeFiles: []string{"compose.yaml"}, Env: docEnv, Opts: ld.Opts{}},
 		}
+		if i%3 == 2 {
+			// the same relation with service s1 inherited from another file through `extends`
+			// (a document reached through extends is interpolated once, like any other)
+			split := func(d any) (string, string) {
+				m := d.(map[string]any)
+				svcs := m["services"].(map[string]any)
+				base := map[string]any{"services": map[string]any{"b1": svcs["s1"]}}
+				main := map[string]any{}
+				for k, v := range m {
+					main[k] = v
+				}
+				ms := map[string]any{}
+				for k, v := range svcs {
+					ms[k] = v
+				}
+				ms["s1"] = map[string]any{"extends": map[string]any{"file": "base/base.yaml", "service": "b1"}}
+				main["services"] = ms
+				return render(main), render(base)
+			}
+			offMain, offBase := split(side(doc, false))
+			onMain, onBase := split(side(doc, true))
+			pc.A.Files = map[string]string{"compose.yaml": offMain, "base/base.yaml": offBase}
+			pc.B.Files = map[string]string{"compose.yaml": onMain, "base/base.yaml": onBase}
+			s.Cover("docs-origin", "extends-from-other-file")
+		} else {
+			s.Cover("docs-origin", "single-file")
+		}
 		v := report(s, judgePair(s, pc))
 		if v == "undecided" {
 			s.Add("docs_reference_did_not_load", 1)
